@@ -224,6 +224,8 @@ func c12Alphabet(tier string) func(raw json.RawMessage, depth int) []Op {
 			if created[u] > 0 && u == 0 && depth <= 1 {
 				// a rating group that does not fit the 32 bits of a rating group: not a recharge of rating group 1
 				ops = append(ops, Op{K: "http", Method: "PUT", Path: ccBase + "/recharging/" + supiA + "_4294967297", Supi: supiA})
+				// more than one separator: names the (unknown) subscriber "<supiA>_77", not rating group 1 of supiA
+				ops = append(ops, Op{K: "http", Method: "PUT", Path: ccBase + "/recharging/" + supiA + "_77_1", Supi: supiA})
 			}
 			if created[u] > 0 {
 				ops = append(ops, Op{K: "recharge", U: u, RG: 1, Amt: 100})
